@@ -4,6 +4,7 @@ use crate::report::Rep;
 use crate::world::World;
 
 pub mod c01;
+pub mod c02;
 pub mod c03;
 pub mod c05;
 pub mod c06;
@@ -23,6 +24,7 @@ use script::{Act, Alpha};
 pub fn dispatch(check: &str, rep: &mut Rep) -> bool {
     match check {
         "c01" => c01::run(rep),
+        "c02" => c02::run(rep),
         "c03" => c03::run(rep),
         "c05" => c05::run(rep),
         "c06" => c06::run(rep),
